@@ -65,8 +65,16 @@ def run(res, tier, replay):
                 # several parts of one set named on the command line (cabextract *.cab): every member is listed / tested / piped once,
                 # quiet or not - a part already joined to an earlier argument's set is skipped
                 argsets = [paths, [paths[-1], paths[0]]] + ([[paths[1], paths[-1]]] if len(paths) > 2 else [])
+                # the same set reached through a directory of symbolic links to its parts
+                ldir = os.path.join(work, "links"); os.makedirs(ldir, exist_ok=True)
+                lpaths = []
+                for x in paths:
+                    lp = os.path.join(ldir, os.path.basename(x))
+                    if not os.path.lexists(lp): os.symlink(os.path.join("..", os.path.basename(x)), lp)
+                    lpaths.append(lp)
+                argsets += [lpaths, [lpaths[0], lpaths[-1]], [paths[0], lpaths[-1]]]
                 for al in argsets:
-                    al = [os.path.basename(x) if bare else x for x in al]
+                    al = [os.path.basename(x) if (bare and os.path.dirname(x) == work) else x for x in al]
                     d2 = "cabinet files: %s\narguments: %s  pattern: %s" % ([os.path.basename(x) for x in paths], al, pat)
                     r = subprocess.run([exe, "-p", "-q"] + fopt + al, capture_output=True, env=env, timeout=120, cwd=work); nruns += 1
                     if r.stdout != b"".join(m.data for m in sel) or r.returncode != 0: bad("-p -q %s wrote %d bytes, expected %d (exit %d)" % (" ".join(os.path.basename(x) for x in al), len(r.stdout), sum(len(m.data) for m in sel), r.returncode), d2, "c17:multi-pipe")
